@@ -438,6 +438,9 @@ def phi_3D_to_4D(phi, f1,f2, xx,yy,zz,aa, deme_ids=None):
     Returns:
         phi_4D (array): A new four-dimensional phi array.
     """
+    if f1 + f2 > 1:
+        raise ValueError('Admixture proportions (f1=%f, f2=%f) are '
+                         'non-sensible.' % (f1, f2))
     Demes.cache.append(Demes.Split(proportions=[f1, f2, 1-f1-f2], deme_ids=deme_ids))
 
     lower_z_index, upper_z_index, frac_lower, frac_upper, norm \
@@ -481,6 +484,9 @@ def phi_4D_to_5D(phi, f1,f2,f3, xx,yy,zz,aa,bb, deme_ids=None):
     Returns:
         phi_5D (array): A new five-dimensional phi array.
     """
+    if f1 + f2 + f3 > 1:
+        raise ValueError('Admixture proportions (f1=%f, f2=%f, f3=%f) are '
+                         'non-sensible.' % (f1, f2, f3))
     Demes.cache.append(Demes.Split(proportions=[f1, f2, f3, 1-f1-f2-f3], deme_ids=deme_ids))
 
     lower_z_index, upper_z_index, frac_lower, frac_upper, norm \
@@ -599,6 +605,9 @@ def phi_3D_admix_1_and_2_into_3(phi, f1,f2, xx,yy,zz):
     Returns:
         phi (array): The updated phi array.
     """
+    if f1 + f2 > 1:
+        raise ValueError('Admixture proportions (f1=%f, f2=%f) are '
+                         'non-sensible.' % (f1, f2))
     Demes.cache.append(Demes.Pulse(sources=[1,2], dest=3, proportions=[f1,f2]))
     lower_w_index, upper_w_index, frac_lower, frac_upper, norm \
             = _three_pop_admixture_intermediates(phi, f1,f2, xx,yy,zz, zz)
@@ -761,6 +770,9 @@ def phi_4D_admix_into_4(phi, f1,f2,f3, xx,yy,zz,aa):
     Returns:
         phi (array): The updated phi array.
     """
+    if f1 + f2 + f3 > 1:
+        raise ValueError('Admixture proportions (f1=%f, f2=%f, f3=%f) are '
+                         'non-sensible.' % (f1, f2, f3))
     Demes.cache.append(Demes.Pulse(sources=[1,2,3], dest=4, proportions=[f1, f2, f3]))
     lower_w_index, upper_w_index, frac_lower, frac_upper, norm \
             = _four_pop_admixture_intermediates(phi, f1,f2,f3, xx,yy,zz,aa, yy)
@@ -1059,6 +1071,9 @@ def phi_5D_admix_into_5(phi, f1,f2,f3,f4, xx,yy,zz,aa,bb):
     Returns:
         phi (array): The updated phi array.
     """
+    if f1 + f2 + f3 + f4 > 1:
+        raise ValueError('Admixture proportions (f1=%f, f2=%f, f3=%f, f4=%f) are '
+                         'non-sensible.' % (f1, f2, f3, f4))
     Demes.cache.append(Demes.Pulse(sources=[1,2,3,4], dest=5, proportions=[f1,f2,f3,f4]))
     lower_w_index, upper_w_index, frac_lower, frac_upper, norm \
             = _five_pop_admixture_intermediates(phi, f1, f2, f3, f4, xx,yy,zz,aa,bb, xx)
